@@ -172,18 +172,27 @@ func VerifH264FuLoss() {
 	seq := symapi.Uint16("seq")
 	ts := symapi.Uint32("ts")
 	dropped := 0
-	for i, fr := range frags {
+	// delivery order: optionally two adjacent fragments arrive swapped
+	order := make([]int, len(frags))
+	for i := range order {
+		order[i] = i
+	}
+	swapAt := symapi.IntRange("swapAt", 0, len(frags)-1) // 0 = in order
+	if swapAt > 0 {
+		order[swapAt-1], order[swapAt] = order[swapAt], order[swapAt-1]
+	}
+	for _, i := range order {
 		if symapi.Choose("drop"+string(rune('0'+i)), 2) == 1 {
 			dropped++
 			continue
 		}
-		dp.Depacketize(verifPkt(fr, seq+uint16(i), ts))
+		dp.Depacketize(verifPkt(frags[i], seq+uint16(i), ts))
 	}
 	dp.Depacketize(verifPkt(next, seq+uint16(len(frags)), ts+3000))
 	for _, fr := range w.frames {
 		symapi.Assert(verifEqBytes(fr.Payload, nal) || verifEqBytes(fr.Payload, next), "fuloss-no-truncated-or-spliced-unit")
 	}
-	if dropped > 0 {
+	if dropped > 0 || swapAt > 0 {
 		symapi.Assert(len(w.frames) == 1, "fuloss-incomplete-unit-dropped-whole")
 	}
 	symapi.Assert(len(w.frames) >= 1 && verifEqBytes(w.frames[len(w.frames)-1].Payload, next), "fuloss-next-unit-still-emitted")
@@ -268,18 +277,26 @@ func VerifH265FuLoss() {
 	seq := symapi.Uint16("seq")
 	ts := symapi.Uint32("ts")
 	dropped := 0
-	for i, fr := range frags {
+	order := make([]int, len(frags))
+	for i := range order {
+		order[i] = i
+	}
+	swapAt := symapi.IntRange("swapAt", 0, len(frags)-1) // 0 = in order
+	if swapAt > 0 {
+		order[swapAt-1], order[swapAt] = order[swapAt], order[swapAt-1]
+	}
+	for _, i := range order {
 		if symapi.Choose("drop"+string(rune('0'+i)), 2) == 1 {
 			dropped++
 			continue
 		}
-		dp.Depacketize(verifPkt(fr, seq+uint16(i), ts))
+		dp.Depacketize(verifPkt(frags[i], seq+uint16(i), ts))
 	}
 	dp.Depacketize(verifPkt(next, seq+uint16(len(frags)), ts+3000))
 	for _, fr := range w.frames {
 		symapi.Assert(verifEqBytes(fr.Payload, nal) || verifEqBytes(fr.Payload, next), "fuloss-no-truncated-or-spliced-unit")
 	}
-	if dropped > 0 {
+	if dropped > 0 || swapAt > 0 {
 		symapi.Assert(len(w.frames) == 1, "fuloss-incomplete-unit-dropped-whole")
 	} else {
 		symapi.Assert(len(w.frames) == 2 && verifEqBytes(w.frames[0].Payload, nal), "fu-reassembled-identical")
